@@ -218,7 +218,34 @@ func runC08(c *Ctx) {
 			continue
 		}
 		walks := findLinkWalks(w, queueLinkFields)
-		c.Check(len(walks) == 1, "O3", "WALK", funcKey(w)+": walks the parent chain", w.Pos(), "loop re-bound through queues[q.ParentQueue]", "the "+ck.what+" check no longer walks the queue's ancestors: limits of parent queues are not enforced")
+		wOuter := w
+		if len(walks) == 0 {
+			// the walk was extracted into a helper of the check ("first queue over quota"): the helper is analysed in
+			// its place, and its answers inside the walk must be the 'over' ones
+			for _, in := range instrsIn(w, func(in ssa.Instruction) bool {
+				cc, ok := in.(ssa.CallInstruction)
+				return ok && calleeOf(cc) != nil && hasModPrefix(calleeOf(cc)) && len(calleeOf(cc).Blocks) > 0
+			}) {
+				cal := calleeOf(in.(ssa.CallInstruction))
+				if ws := findLinkWalks(cal, queueLinkFields); len(ws) == 1 && len(instrsIn(cal, isCallToFn(cmp))) > 0 {
+					w, walks = cal, ws
+					c.Analysed(funcKey(cal))
+					for _, b := range cal.Blocks {
+						ret, isRet := b.Instrs[len(b.Instrs)-1].(*ssa.Return)
+						if !isRet || !insideLoopBody(b) {
+							continue
+						}
+						_, over := hasFact(fx.FactsAt(ret), func(f Fact) bool {
+							return f.Pol && f.T.contains(func(x *Term) bool { return x.isCallTo(cmp) })
+						})
+						c.Check(over, "O3", "MPT", fmt.Sprintf("%s: the walk is left early only for a queue that is over (block %d)", funcKey(cal), b.Index), instrPos(ret), "behind "+cmp.Name()+"() == true",
+							"the extracted ancestor walk of the "+ck.what+" check returns from inside the loop without having found a queue that is over: the remaining ancestors are not checked")
+					}
+					break
+				}
+			}
+		}
+		c.Check(len(walks) == 1, "O3", "WALK", funcKey(wOuter)+": walks the parent chain", w.Pos(), "loop re-bound through queues[q.ParentQueue]", "the "+ck.what+" check no longer walks the queue's ancestors: limits of parent queues are not enforced")
 		if len(walks) == 1 {
 			wk := walks[0]
 			// every iteration evaluates the comparison; "over" leaves through a return; schedulable only after the loop
